@@ -13,8 +13,9 @@ CONSTANTS Tier,      \* "quick" | "thorough"
           SEED,      \* VERIF_SEED: moves the seed-dependent part of the grid
           SHARD, NSHARDS
 
-VARIABLES model, shift, par
-vars == <<model, shift, par>>
+VARIABLES model, shift, par,
+          tabs       \* model-level tables, evaluated once in Init (see PairPot!PotRec)
+vars == <<model, shift, par, tabs>>
 
 Quick == Tier = "quick"
 
@@ -37,7 +38,12 @@ IsInt(q) == q[2] = 1
 \* distances: both sides of sigma and of r_c, including r = r_c and r = sigma
 RSeqBase == << <<1, 4>>, <<3, 8>>, <<1, 2>>, <<5, 8>>, <<3, 4>>, <<9, 10>>, <<1, 1>>, <<21, 20>>, <<28, 25>>, <<5, 4>>, <<3, 2>>,
                <<2, 1>>, <<5, 2>>, <<3, 1>>, <<7, 2>> >>
-RSeqAll  == TLCEval(RSeqBase \o << Jit(7, 0, 1, 16), Jit(8, 1, 2, 13), Jit(9, 2, 4, 10), Jit(10, 0, 3, 17) >>)
+\* (a seed-dependent distance that coincides with an earlier one is dropped)
+RECURSIVE Dedup(_, _)
+Dedup(sq, acc) == IF sq = << >> THEN acc
+                  ELSE IF \E i \in 1..Len(acc) : REq(acc[i], Head(sq)) THEN Dedup(Tail(sq), acc)
+                  ELSE Dedup(Tail(sq), Append(acc, Head(sq)))
+RSeqAll  == Dedup(RSeqBase \o << Jit(7, 0, 1, 16), Jit(8, 1, 2, 13), Jit(9, 2, 4, 10), Jit(10, 0, 3, 17) >>, << >>)
 
 \* Hertz: for non-integer alpha the law is real only for r < sigma; r = sigma itself is
 \* excluded (s'' is singular there for alpha < 2 and 0^0 for alpha = 2)
@@ -63,7 +69,30 @@ ParsOf(m, sh) ==
 Key(p) == p.eps[1] + 3 * p.sigma[1] + 5 * p.rc[1] + 7 * p.n[1] + 11 * p.A[1] + 13 * p.alpha[1]
           + 17 * p.sigma[2] + 19 * p.n[2]
 
+\* ---- the clauses of C12 at model level, per potential ----
+\* which leaves each member of the triple depends on (selector / shift clause)
+Leaves(m, sh) ==
+  /\ UsesA(S1(m)) = (m = "inverse_power_law")
+  /\ UsesSym(S2(m)) = (m # "lennard_jones")
+  /\ ~UsesRc(S1(m)) /\ ~UsesRc(S2(m))
+  /\ ~UsesR(S1c(m, sh))
+  /\ UsesRc(S1c(m, sh)) = (sh /\ m # "harmonic_hertz")
+  /\ (~sh => S1c(m, sh) = PZero)
+Clauses(m) ==
+  [ first   |-> DocFirstDerivative(m),
+    second  |-> DocSecondDerivative(m),
+    cutoff  |-> DocCutoffTerm(m),
+    shift1  |-> ForceShiftFirst(m),
+    shift2  |-> ForceShiftSecond(m),
+    nosym   |-> (m = "lennard_jones" => NoSym(S1(m)) /\ NoSym(S2(m)) /\ NoSym(S1AtCut(m))),
+    algebra |-> /\ Leibniz(Energy(m), Energy("lennard_jones"))
+                /\ Leibniz(S1(m), PMul(RP(<<0, 1>>), UP(<<2, 0 - 1>>)))
+                /\ Linear(Energy(m), Energy("inverse_power_law")),
+    leaves  |-> TLCEval([sh \in BOOLEAN |-> Leaves(m, sh)]),
+    nmax    |-> Max2(Len(S1(m)), Len(S2(m))) ]
+
 Init ==
+  /\ tabs = [pot |-> PotTable, cl |-> TLCEval([m \in Models |-> Clauses(m)])]
   /\ model \in Models
   /\ shift \in BOOLEAN
   /\ par \in ParsOf(model, shift)
@@ -72,41 +101,18 @@ Init ==
 Next == UNCHANGED vars
 Spec == Init /\ [][Next]_vars
 
-\* ---- the clauses of C12 at model level ----
-\* (tables over the three models: evaluated once by TLC, looked up in every state)
-TabFirst   == TLCEval([m \in Models |-> DocFirstDerivative(m)])
-TabSecond  == TLCEval([m \in Models |-> DocSecondDerivative(m)])
-TabCutoff  == TLCEval([m \in Models |-> DocCutoffTerm(m)])
-TabShift1  == TLCEval([m \in Models |-> ForceShiftFirst(m)])
-TabShift2  == TLCEval([m \in Models |-> ForceShiftSecond(m)])
-TabNoSymLJ == NoSym(S1("lennard_jones")) /\ NoSym(S2("lennard_jones")) /\ NoSym(S1AtCut("lennard_jones"))
-TabAlgebra == TLCEval([m \in Models |->
-                /\ Leibniz(Energy(m), Energy("lennard_jones"))
-                /\ Leibniz(S1(m), PMul(RP(<<0, 1>>), UP(<<2, 0 - 1>>)))
-                /\ Linear(Energy(m), Energy("inverse_power_law"))])
-\* which leaves each member of the triple depends on (selector / shift clause)
-TabLeaves  == TLCEval([m \in Models |-> TLCEval([sh \in BOOLEAN |->
-                /\ UsesA(S1(m)) = (m = "inverse_power_law")
-                /\ UsesSym(S2(m)) = (m # "lennard_jones")
-                /\ ~UsesRc(S1(m)) /\ ~UsesRc(S2(m))
-                /\ ~UsesR(S1c(m, sh))
-                /\ UsesRc(S1c(m, sh)) = (sh /\ m # "harmonic_hertz")
-                /\ (~sh => S1c(m, sh) = PZero)])])
-InvFirst   == TabFirst[model]
-InvSecond  == TabSecond[model]
-InvCutoff  == TabCutoff[model]
-InvShift1  == TabShift1[model]
-InvShift2  == TabShift2[model]
-InvNoSymLJ == TabNoSymLJ
-InvAlgebra == TabAlgebra[model]
-InvLeaves  == TabLeaves[model][shift]
+InvFirst   == tabs.cl[model].first
+InvSecond  == tabs.cl[model].second
+InvCutoff  == tabs.cl[model].cutoff
+InvShift1  == tabs.cl[model].shift1
+InvShift2  == tabs.cl[model].shift2
+InvNoSymLJ == tabs.cl[model].nosym
+InvAlgebra == tabs.cl[model].algebra
+InvLeaves  == tabs.cl[model].leaves[shift]
 \* the grid has more distinct distances than the triple has monomials (interpolation argument:
 \* a sum of k real-power monomials has at most k - 1 positive zeros)
-TabNMono   == TLCEval([m \in Models |-> Max2(Len(S1(m)), Len(S2(m)))])
-\* (TLC re-evaluates a LET body at every reference: rs is referenced O(1) times)
-InvGrid    == LET rs == RSeq(model, par) IN
-              /\ Len(rs) >= 2 * TabNMono[model] + 2
-              /\ Cardinality({RNorm(q[1], q[2]) : q \in Range(rs)}) = Len(rs)
+InvGrid    == /\ Len(RSeq(model, par)) >= 2 * tabs.cl[model].nmax + 2
+              /\ Cardinality({RNorm(q[1], q[2]) : q \in Range(RSeq(model, par))}) = Len(RSeq(model, par))
 InvDomain  == /\ RLt(RZero, par.eps) /\ RLt(RZero, par.sigma) /\ RLt(RZero, par.rc)
               /\ RLt(<<1, 1>>, par.alpha) /\ RLt(RZero, par.n)
               /\ \A q \in Range(RSeq(model, par)) : RLt(RZero, q)
@@ -131,11 +137,11 @@ Terms ==
   [ m     |-> "Terms",
     model |-> model,
     shift |-> shift,
-    sym   |-> SymName(model),
-    s1    |-> S1Term(model),
-    s1c   |-> S1cTerm(model, shift),
-    s2    |-> S2Term(model),
-    nmono |-> <<Len(S1(model)), Len(S1c(model, shift)), Len(S2(model))>> ]
+    sym   |-> tabs.pot[model].sym,
+    s1    |-> tabs.pot[model].s1t,
+    s1c   |-> tabs.pot[model].s1ct[shift],
+    s2    |-> tabs.pot[model].s2t,
+    nmono |-> tabs.pot[model].nmono[shift] ]
 Emit == /\ PrintT(ToJson(Point))
         /\ (par = Lead(model) => PrintT(ToJson(Terms)))
 =============================================================================
